@@ -1047,3 +1047,174 @@ func ruleR20_11(r *Run) {
 	}
 	r.check(nCand >= 1, "repo:map-field-of-map-entry-writes", fmt.Sprintf("%d writes into a map field of a fetched map entry examined", nCand), "no such write found: rule needs review", "-")
 }
+
+func init() {
+	register(ruleDef{ID: "R6.8", Prop: "C06", Tier: "quick", Floor: 1,
+		Title: "instance names are unique per repo for as long as the repo's data map holds the name: newData rejects a name found in the map unconditionally (a deleted-but-not-yet-removed instance still owns its name, or its asynchronous removal would remove the newcomer)",
+		Fn:    ruleR6_8})
+	register(ruleDef{ID: "R4.8", Prop: "C04", Tier: "quick", Floor: 1,
+		Title: "repo deletion order: the repo blob is deleted before the id maps that the loader needs for it are trimmed and persisted (a crash in between must not leave a blob whose id is missing from the persisted map)",
+		Fn:    ruleR4_8})
+	register(ruleDef{ID: "R12.6", Prop: "C12", Tier: "quick", Floor: 2,
+		Title: "caller-supplied labels are registered: when a request names the label to use (split/remain supervoxel ids), every success path has raised the label counters to cover it",
+		Fn:    ruleR12_6})
+}
+
+func ruleR6_8(r *Run) {
+	w := r.W
+	f := w.method("datastore", "repoManager", "newData")
+	if f == nil {
+		r.violation("repoManager.newData", "not found", "-")
+		return
+	}
+	n := 0
+	for _, b := range f.Blocks {
+		for _, in := range b.Instrs {
+			lk, ok := in.(*ssa.Lookup)
+			if !ok || !lk.CommaOk || !isFieldLoad(lk.X, "repoT", "data") {
+				continue
+			}
+			n++
+			var found *ssa.Extract
+			for _, ref := range *lk.Referrers() {
+				if ex, ok := ref.(*ssa.Extract); ok && ex.Index == 1 {
+					found = ex
+				}
+			}
+			okU := false
+			if found != nil {
+				for _, ref := range *found.Referrers() {
+					ifi, ok := ref.(*ssa.If)
+					if !ok {
+						continue
+					}
+					s := ifi.Block().Succs[0]
+					p := findPath(f, s.Instrs[0], func(ssa.Instruction) bool { return false }, successExit, nil)
+					if p == nil && !successExit(s.Instrs[0]) {
+						okU = true
+					}
+				}
+			}
+			r.check(okU, "repoManager.newData:name-in-use-is-an-error", "a name present in the repo's data map always ends newData with an error",
+				"newData can go on although the repo's data map already holds the name (e.g. when the holder is only flagged deleted): when the old instance's asynchronous deletion finishes it removes the map entry by name, taking the new instance with it", w.pos(lk.Pos()))
+		}
+	}
+	r.check(n > 0, "repoManager.newData:name-lookup", "name lookup present", "newData no longer looks the name up in the repo's data map", w.fpos(f))
+}
+
+func ruleR4_8(r *Run) {
+	w := r.W
+	f := w.method("datastore", "repoManager", "deleteRepo")
+	if f == nil {
+		r.violation("repoManager.deleteRepo", "not found", "-")
+		return
+	}
+	var blob ssa.Instruction
+	for _, c := range calls(f) {
+		if callee := c.Common().StaticCallee(); callee != nil && callee.Name() == "delete" && callee.Signature.Recv() != nil && typeIs(callee.Signature.Recv().Type(), "datastore", "repoT") {
+			blob = c
+		}
+	}
+	if blob == nil {
+		r.violation("repoManager.deleteRepo:deletes-blob", "deleteRepo no longer deletes the repo blob", w.fpos(f))
+		return
+	}
+	bad := ""
+	np := 0
+	for _, c := range calls(f) {
+		nm := callName(c)
+		if nm == "putCaches" || nm == "putNewIDs" {
+			np++
+			if !domInstr(blob, c) {
+				bad = w.pos(c.Pos())
+			}
+		}
+	}
+	r.check(bad == "", "repoManager.deleteRepo:blob-deleted-before-maps-persisted", fmt.Sprintf("the repo blob delete dominates every persist of the id maps (%d in the function)", np),
+		"deleteRepo persists the trimmed id maps before the repo blob is deleted: a crash in between leaves a blob whose repo id is missing from the persisted map, and every later start aborts with 'retrieved repo with id N that is not in map'", firstNonEmpty(bad, w.fpos(f)))
+}
+
+func ruleR12_6(r *Run) {
+	w := r.W
+	f := w.method("datatype/labelmap", "Data", "SplitSupervoxel")
+	if f == nil {
+		r.violation("labelmap.SplitSupervoxel", "not found", "-")
+		return
+	}
+	// label-typed parameters that the request may set: uint64 parameters tested against 0
+	n := 0
+	for _, p := range f.Params {
+		if bt, ok := p.Type().Underlying().(*types.Basic); !ok || bt.Kind() != types.Uint64 {
+			continue
+		}
+		tested := false
+		for _, ref := range *p.Referrers() {
+			if bo, ok := ref.(*ssa.BinOp); ok && (bo.Op == token.NEQ || bo.Op == token.EQL) {
+				if k, ok := constInt(bo.Y); ok && k == 0 {
+					tested = true
+				}
+			}
+		}
+		// spilled parameter: look at loads of its alloc
+		if !tested {
+			for _, ref := range *p.Referrers() {
+				if st, ok := ref.(*ssa.Store); ok {
+					if al, ok := st.Addr.(*ssa.Alloc); ok {
+						for _, r2 := range *al.Referrers() {
+							if ld, ok := r2.(*ssa.UnOp); ok && ld.Referrers() != nil {
+								for _, r3 := range *ld.Referrers() {
+									if bo, ok := r3.(*ssa.BinOp); ok && (bo.Op == token.NEQ || bo.Op == token.EQL) {
+										if k, ok := constInt(bo.Y); ok && k == 0 {
+											tested = true
+										}
+									}
+								}
+							}
+						}
+					}
+				}
+			}
+		}
+		if !tested {
+			continue
+		}
+		n++
+		isParam := func(v ssa.Value) bool {
+			for _, rt := range roots(v, f) {
+				if rt.V == ssa.Value(p) {
+					return true
+				}
+			}
+			return false
+		}
+		supplied := func(b *ssa.BasicBlock, i int) bool {
+			ifi, ok := b.Instrs[len(b.Instrs)-1].(*ssa.If)
+			if !ok {
+				return true
+			}
+			bo, ok := ifi.Cond.(*ssa.BinOp)
+			if !ok || !(bo.Op == token.NEQ || bo.Op == token.EQL) {
+				return true
+			}
+			if k, ok := constInt(bo.Y); !ok || k != 0 || !isParam(bo.X) {
+				return true
+			}
+			if bo.Op == token.NEQ {
+				return i == 0
+			}
+			return i == 1
+		}
+		registers := func(in ssa.Instruction) bool {
+			c, ok := in.(ssa.CallInstruction)
+			if !ok || callName(c) != "updateMaxLabel" {
+				return false
+			}
+			a := c.Common().Args
+			return isParam(a[len(a)-1])
+		}
+		path := findPath(f, nil, registers, successExit, supplied)
+		r.check(path == nil, fmt.Sprintf("labelmap.SplitSupervoxel:%s:registered-when-supplied", p.Name()), "when the request supplies this label every success exit has passed updateMaxLabel with it",
+			"a label supplied by the request becomes part of the volume without the label counters being raised to cover it: a later allocation (nextlabel, cleave, split) can hand out a label that is already present", w.fpos(f), w.renderPath(path)...)
+	}
+	r.check(n >= 2, "labelmap.SplitSupervoxel:supplied-label-parameters", fmt.Sprintf("%d optional label parameters", n), "the optional label parameters of SplitSupervoxel were not found", w.fpos(f))
+}
